@@ -193,3 +193,34 @@ Proof.
   apply views_of_accepted; try assumption.
   intros t Hl. apply Hk. destruct HI as (_ & _ & HL). apply HL in Hl. eapply Hadds. exact Hl.
 Qed.
+
+(** ---------- C06 on the views ---------- *)
+
+Definition c06_views (cfg : config) (lastSize : Z) (v : pviews) : Prop :=
+  (forall a l, In (a, l) (v_lists v) -> Z.of_nat (length l) <= countPerSenderThreshold cfg) /\
+  (evictionEnabled cfg = true ->
+   v_cntTx v <= countThreshold cfg + 1 /\ v_cntSenders v <= countThreshold cfg + 1 /\ v_numBytes v <= numBytesThreshold cfg + lastSize).
+
+Theorem c06_viewsb_iff cfg lastSize v : c06_viewsb cfg lastSize v = true <-> c06_views cfg lastSize v.
+Proof.
+  unfold c06_viewsb, c06_views. rewrite andb_true_iff, forallb_forall, orb_true_iff, negb_true_iff, !andb_true_iff, !Z.leb_le.
+  split.
+  - intros (H1 & H2). split.
+    + intros a l Hal. apply Z.leb_le. apply (H1 (a, l) Hal).
+    + intros Hev. destruct H2 as [H2|((H2 & H3) & H4)]; [congruence|auto].
+  - intros (H1 & H2). split.
+    + intros (a, l) Hal. apply Z.leb_le. simpl. apply (H1 a l Hal).
+    + destruct (evictionEnabled cfg); [right|left; reflexivity]. destruct (H2 eq_refl) as (A & B & C). auto.
+Qed.
+
+(** after an AddTx of any reachable history, the model's own views pass the C06 judge *)
+Theorem run_pool_views_c06_accepted cfg ops t alpha :
+  hist_ok (ops ++ [PAdd t]) -> thresholds_ok cfg -> 0 <= countPerSenderThreshold cfg ->
+  (forall x, In x (added_txs (ops ++ [PAdd t])) -> 0 <= size x) ->
+  c06_viewsb cfg (size t) (views_of alpha (run_pool cfg (ops ++ [PAdd t]))) = true.
+Proof.
+  intros Hok HT Hc Hpos. apply c06_viewsb_iff. split.
+  - intros a l Hal. simpl in Hal. apply in_map_iff in Hal. destruct Hal as (a' & E & _). inversion E; subst. rewrite map_length.
+    apply (run_pool_count_ok cfg (ops ++ [PAdd t]) Hok Hc).
+  - intros Hev. simpl. apply (run_pool_pool_wide cfg ops t Hok HT Hev Hpos).
+Qed.
